@@ -12,15 +12,15 @@ package parsley
 //@ -- ---------------------------------------------------------------- errors
 //@ props C06,C08,C09,C10,C14
 
-//@ -- isWsErr(e) / isNotFound(e): errors.As(e, *whitespaceError) / errors.As(e, *NotFoundError) succeeds
-//@ abstract func isWsErr(e error) bool
-//@ abstract func isNotFound(e error) bool
+//@ -- IsWsErr(e) / IsNotFound(e): errors.As(e, *whitespaceError) / errors.As(e, *NotFoundError) succeeds
+//@ abstract func IsWsErr(e error) bool
+//@ abstract func IsNotFound(e error) bool
 //@ -- errors.As looks through err.Unwrap(): an err value is neither target type itself
-//@ axiom [as-unwrap-ws] forall c error, p Pos :: isWsErr(err{c, p}) == isWsErr(c)
-//@ axiom [as-unwrap-nf] forall c error, p Pos :: isNotFound(err{c, p}) == isNotFound(c)
-//@ axiom [as-ws-direct] forall w whitespaceError :: isWsErr(w) && !isNotFound(w)
-//@ axiom [as-nf-direct] forall w NotFoundError :: isNotFound(w) && !isWsErr(w)
-//@ axiom [as-nil] !isWsErr(nil) && !isNotFound(nil)
+//@ axiom [as-unwrap-ws] forall c error, p Pos :: IsWsErr(err{c, p}) == IsWsErr(c)
+//@ axiom [as-unwrap-nf] forall c error, p Pos :: IsNotFound(err{c, p}) == IsNotFound(c)
+//@ axiom [as-ws-direct] forall w whitespaceError :: IsWsErr(w) && !IsNotFound(w)
+//@ axiom [as-nf-direct] forall w NotFoundError :: IsNotFound(w) && !IsWsErr(w)
+//@ axiom [as-nil] !IsWsErr(nil) && !IsNotFound(nil)
 
 //@ method (e err) Pos() (r Pos) = e.pos
 //@ method (e err) Cause() (r error) = e.cause
@@ -39,22 +39,106 @@ package parsley
 //@   ensures  r != nil || cause == nil
 //@   ensures  [keep] typeis[Error](cause) ==> same(r, cause)
 //@   ensures  [wrap] !typeis[Error](cause) ==> r != nil && r.Pos() == pos && same(r.Cause(), cause) && typeis[err](r)
-//@   ensures  [kind] !typeis[Error](cause) ==> isWsErr(r) == isWsErr(cause) && isNotFound(r) == isNotFound(cause)
+//@   ensures  [kind] !typeis[Error](cause) ==> IsWsErr(r) == IsWsErr(cause) && IsNotFound(r) == IsNotFound(cause)
 //@   assigns  nothing
 
 //@ assume func errors.As(e error, target interface{}) (r bool)
-//@   ensures  typeis[*whitespaceError](target) ==> r == isWsErr(e)
-//@   ensures  typeis[*NotFoundError](target) ==> r == isNotFound(e)
+//@   ensures  typeis[*whitespaceError](target) ==> r == IsWsErr(e)
+//@   ensures  typeis[*NotFoundError](target) ==> r == IsNotFound(e)
 //@   assigns  pointee(target)
 
 //@ func NewWhitespaceError(msg string) (r error)
-//@   ensures  typeis[whitespaceError](r) && isWsErr(r)
+//@   ensures  typeis[whitespaceError](r) && IsWsErr(r) && !typeis[Error](r)
 //@   assigns  nothing
 
 //@ func IsWhitespaceError(e error) (r bool)
-//@   ensures  r == isWsErr(e)
+//@   ensures  r == IsWsErr(e)
 //@   assigns  nothing
 
 //@ func IsNotFoundError(e error) (r bool)
-//@   ensures  r == isNotFound(e)
+//@   ensures  r == IsNotFound(e)
 //@   assigns  nothing
+
+//@ -- --------------------------------------------------------------- file set
+//@ props C11,C12,C06
+
+//@ -- File implementations: Len() is a pure, stable function of the file; Position/Pos are pure
+//@ interface parsley.File.Len(f File) (r int)
+//@   requires f != nil
+//@   ensures  r == f.Len() && 0 <= r && r <= 1<<48
+//@   assigns  nothing
+//@ interface parsley.File.SetOffset(f File, o int)
+//@   requires f != nil
+//@   assigns  fields[File]()
+//@ interface parsley.File.Position(f File, p int) (r Position)
+//@   requires f != nil
+//@   ensures  same(r, f.Position(p)) && r != nil
+//@   assigns  fields[File]()
+//@ interface parsley.Position.String(p Position) (r string)
+//@   requires p != nil
+//@   ensures  r == p.String()
+//@   assigns  nothing
+//@ interface parsley.Error.Error(e Error) (r string)
+//@   requires e != nil
+//@   ensures  r == e.Error()
+//@   assigns  nothing
+
+//@ -- representation invariant of a file set: file i owns the global positions
+//@ -- [offset[i], offset[i]+Len(i)] (the last one is its end-of-file position); the next file starts right after
+//@ pure func wfFS(fs *FileSet) bool = fs != nil && len(fs.files) == len(fs.offset) && 1 <= fs.pos && (len(fs.offset) == 0 ==> fs.pos == 1) && (len(fs.offset) > 0 ==> fs.offset[0] == 1) && (forall i int :: 0 <= i && i < len(fs.files) ==> fs.files[i] != nil && 1 <= fs.offset[i] && fs.offset[i] + fs.files[i].Len() + 1 <= fs.pos) && (forall i, j int :: 0 <= i && j == i+1 && j < len(fs.offset) ==> fs.offset[i] + fs.files[i].Len() + 1 == fs.offset[j]) && (len(fs.offset) > 0 ==> fs.offset[len(fs.offset)-1] + fs.files[len(fs.offset)-1].Len() + 1 == fs.pos)
+
+//@ pure func sortedOffsets(fs *FileSet) bool = forall i, j int :: 0 <= i && i < j && j < len(fs.offset) ==> fs.offset[i] + fs.files[i].Len() + 1 <= fs.offset[j]
+
+//@ func (fs *FileSet) AddFile(f File)
+//@   requires wfFS(fs) && sortedOffsets(fs) && f != nil && fs.pos <= 1<<59
+//@   ensures  wfFS(fs) && sortedOffsets(fs)
+//@   ensures  [appended] len(fs.files) == old(len(fs.files)) + 1 && same(fs.files[len(fs.files)-1], f) && fs.offset[len(fs.offset)-1] == old(fs.pos) && fs.pos == old(fs.pos) + f.Len() + 1 && 0 <= f.Len() && f.Len() <= 1<<48
+//@   ensures  [kept] forall i int :: 0 <= i && i < old(len(fs.files)) ==> same(fs.files[i], old(fs.files[i])) && fs.offset[i] == old(fs.offset[i])
+//@   ensures  [arrays] (array(fs.files) == old(array(fs.files)) || fresh(fs.files)) && (array(fs.offset) == old(array(fs.offset)) || fresh(fs.offset))
+//@   assigns  fs.files, fs.offset, fs.pos, cells(fs.files), cells(fs.offset), fields[File]()
+
+//@ closure (*FileSet).Position$1(i int) (r bool)
+//@   captures (fs *FileSet, pos Pos)
+//@   requires fs != nil && 0 <= i && i < len(fs.offset)
+//@   ensures  [def] r == (fs.offset[i] > int(pos))
+//@   assigns  nothing
+
+//@ func (fs *FileSet) Position(pos Pos) (r Position)
+//@   requires wfFS(fs) && sortedOffsets(fs) && pos >= 0
+//@   ensures  r != nil
+//@   ensures  [unknown] (pos == 0 || int(pos) >= fs.pos) ==> r == NilPosition
+//@   ensures  [known] 0 < pos && int(pos) < fs.pos ==> exists i int :: 0 <= i && i < len(fs.files) && fs.offset[i] <= int(pos) && int(pos) <= fs.offset[i] + fs.files[i].Len() && same(r, fs.files[i].Position(int(pos) - fs.offset[i]))
+//@   assigns  fields[File]()
+
+//@ -- distinct (file, local offset) pairs have distinct global positions; files never overlap
+//@ lemma injective(fs *FileSet, i int, j int, o1 int, o2 int)
+//@   requires wfFS(fs) && sortedOffsets(fs)
+//@   requires 0 <= i && i < len(fs.files) && 0 <= j && j < len(fs.files)
+//@   requires 0 <= o1 && o1 <= fs.files[i].Len() && 0 <= o2 && o2 <= fs.files[j].Len()
+//@   ensures  [distinct] (i != j || o1 != o2) ==> fs.offset[i] + o1 != fs.offset[j] + o2
+//@   ensures  [inrange] 1 <= fs.offset[i] + o1 && fs.offset[i] + o1 < fs.pos
+
+//@ assume func errors.New(text string) (r error)
+//@   ensures r != nil
+//@   assigns nothing
+
+//@ assume func fmt.Errorf(format string, a ...interface{}) (r error)
+//@   ensures r != nil
+//@   assigns nothing
+
+//@ func NewFileSet(files ...File) (r *FileSet)
+//@   requires len(files) <= 1024 && forall i int :: 0 <= i && i < len(files) ==> files[i] != nil
+//@   ensures  fresh(r) && wfFS(r) && sortedOffsets(r) && len(r.files) == len(files)
+//@   ensures  [files] forall i int :: 0 <= i && i < len(files) ==> same(r.files[i], files[i])
+//@   assigns  fields[File]()
+//@ loop 1 (n rangeindex, fs *FileSet)
+//@   invariant 0 <= n && n <= len(files)
+//@   invariant fresh(fs) && wfFS(fs) && sortedOffsets(fs) && len(fs.files) == n && fresh(fs.files) && fresh(fs.offset)
+//@   invariant fs.pos <= 1 + n * (1<<48 + 1)
+//@   invariant forall i int :: 0 <= i && i < n ==> same(fs.files[i], files[i])
+
+//@ func (fs *FileSet) ErrorWithPosition(e Error) (r error)
+//@   requires wfFS(fs) && sortedOffsets(fs) && e != nil && e.Pos() >= 0
+//@   ensures  r != nil
+//@   ensures  [unknown] (e.Pos() == 0 || int(e.Pos()) >= fs.pos) ==> same(r, e)
+//@   assigns  fields[File]()
